@@ -318,6 +318,16 @@ class BaseInterpolatableCompiler(BaseCompiler):
                 for source in vfDoc.sources:
                     sourcesToCompile.add(source.name)
 
+        # The default source of an interpolable sub-space is needed even when none of
+        # the requested VFs contains it (a VF that only covers a sub-range with its own
+        # default): the masters of a sub-space are compiled together, with an
+        # instantiator that interpolates from the sub-space's default.
+        for subDoc in interpolableSubDocs:
+            if any(s.name in sourcesToCompile for s in subDoc.sources):
+                subDocDefault = subDoc.findDefault()
+                if subDocDefault is not None:
+                    sourcesToCompile.add(subDocDefault.name)
+
         # Match sources to compile to their Descriptor in the original designspace
         sourcesByName = {}
         for source in designSpaceDoc.sources:
